@@ -155,3 +155,30 @@ Section WrapperG.
   Definition permute_out2G (px pz : list nat) (r : list (list D) * list (list (list E))) :=
     (gather2 D d0 (fst r) px pz, map (fun p => gather2 E e0 p px pz) (snd r)).
 End WrapperG.
+
+(* ------------------------------------------------------------------ the data-less entry of _register.inner *)
+(* _Algorithm._register.inner(self, data=None, ...):  input_y := data is not None;
+     entry:  if input_y and not skip_sorting: y = _sort_array(y, self._sort_order)
+     exit:   _return_results(baseline, params, dtype, sort_keys, skip_sorting)
+   -- the exit depends on the DECORATOR's skip_sorting only, never on input_y: a method that may be
+   called without data (interp_pts) builds its baseline from the sorted self.x and that baseline is
+   un-sorted like any other.  The body receives the data as an option. *)
+Section WrapperN.
+  Variable D E : Type.
+  Variable d0 : D.
+  Variable e0 : E.
+  Variable body : list Z -> option (list D) -> option (list D) -> list D * list (list E).
+
+  Definition wrapperN (skip : bool) (x : list Z) (y : option (list D)) (w : option (list D))
+    : list D * list (list E) :=
+    let o := determine_sorts x in
+    let so := option_map fst o in
+    let io := option_map snd o in
+    let xs := sort_array 0%Z x so in
+    let input_y := match y with Some _ => true | None => false end in
+    let ys := option_map (fun y' => if input_y && negb skip then sort_array d0 y' so else y') y in
+    let ws := option_map (fun w' => sort_array d0 w' so) w in
+    let r := body xs ys ws in
+    ((if negb skip then sort_array d0 (fst r) io else fst r),
+     map (fun p => sort_array e0 p io) (snd r)).
+End WrapperN.
